@@ -98,7 +98,8 @@ with cf.ProcessPoolExecutor(jobs) as ex:
                 },
             }
         if "error" in res:
-            meta["checks"] = res
+            print(sid, "PATCH-ERROR", res["error"][:120])
+            continue
         else:
             meta["caught_by"] = [p for p in PROPS if res[p]["rc"] == 1]
             meta["analysis_error_in"] = [p for p in PROPS if res[p]["rc"] == 2]
